@@ -69,3 +69,19 @@ def count(name, lines, ib, stats, meta):
         elif t[0] == 'esp32':
             stats['evaluations'] += 1; stats['distinct'].add(('esp32', min(int(t[2]), 40)))
     if len(stats['samples']) < 3: stats['samples'].append({'scenario': name, 'ops': [l[:90] for l in lines[:6]], 'impl_fault': any(b.fault for b in ib)})
+def extra_checks(tier, seed):
+    """premise of the property: the daemons hand over an MTU-sized buffer filled by recvfrom(..., MTU) - re-extracted from the sources"""
+    import re, os
+    fails = []; found = []
+    for f in ('os/linux/daemon/linux-main.c', 'os/linux/daemon/linux-embedded-main.c'):
+        p = os.path.join(V.REPO, f)
+        try: txt = open(p, errors='replace').read()
+        except OSError: fails.append('premise: %s is missing' % f); continue
+        a = re.search(r'recvBuffer\s*=\s*malloc\(\s*iface->MTU\s*\)', txt)
+        b = re.search(r'recvfrom\(\s*iface->socket\s*,\s*iface->recvBuffer\s*,\s*iface->MTU\s*,', txt)
+        c = re.search(r'parseFrame\(\s*iface->recvBuffer\s*,', txt)
+        if not (a and b):
+            fails.append('premise of C01 no longer re-established: %s does not allocate the receive buffer as malloc(iface->MTU) and fill it by recvfrom(..., iface->MTU, ...) '
+                         '(the core trusts the buffer to be MTU bytes long)' % f)
+        found.append({'file': f, 'malloc_mtu': bool(a), 'recvfrom_mtu': bool(b), 'parseFrame_on_buffer': bool(c)})
+    return {'failures': fails, 'found_input': False, 'premise': found}
